@@ -52,6 +52,7 @@ package geojson
 //@   entry use AGjsonZero()
 //@   requires opts != nil && len(data) > 0
 //@   decreases len(data) ; 1
+//@   call 1 iterinv NoMembersYet: len(keys.members) == 0
 //@   call 1 iterinv Shorter: len(keys.rGeometry.Raw) < len(data) && len(keys.rGeometries.Raw) < len(data) && len(keys.rFeatures.Raw) < len(data)
 //@   call 1 use forall r gjson.Result :: AGjsonSub(r, $idx)
 //@   ensures Shape: okShape(result0, result1)
@@ -68,6 +69,9 @@ package geojson
 //@   ensures result == nil
 //@   ensures old(*ex) != nil ==> *ex == old(*ex)
 //@   ensures forall e *extra :: (old($alloc)[e] && e != old(*ex)) ==> e.members == old(e.members)
+//@   ensures Untouched: len(keys.members) == 0 ==> *ex == old(*ex)
+//@   ensures Members: *ex != nil ==> ((*ex).members == ite(len(keys.members) == 0, old((*ex).members), keys.members))
+//@   ensures NewExtra: (old(*ex) == nil && *ex != nil) ==> ((*ex).dims == 0 && len((*ex).values) == 0 && !old($alloc)[*ex])
 
 //@ func toGeometryOpts
 //@   props C05 C08
@@ -95,6 +99,11 @@ package geojson
 //@   dead cover.ret1
 //@   entry use rootGlobalsInit()
 //@   requires keys != nil && opts != nil
+//@   requires KeysOK: len(keys.members) == 0 || len(keys.members) >= 2
+//@   ensures Writable: result1 == nil ==> WriteInv(result0)   // what Parse returns for a Point can be serialised without panic
+//@   unfold 2
+//@   stmt point.go:"if opts.RequireValid {" use ownsFirst(extra)
+//@   stmt point.go:"if opts.RequireValid {" assert XOK: extraOK(extra, 1)
 //@   ensures Shape: okShape(result0, result1)
 //@   ensures C07Kind: result1 == nil ==> (isPointK(result0) || isSimplePointK(result0))
 //@   ensures RequireValid: result1 == nil && opts.RequireValid ==> oValidS(result0)
